@@ -43,7 +43,7 @@ def gen_cases(tier):
     pals = [sd % 3] if tier == "quick" else [0, 1, 2]
     mid, deep = Trees(*SIG_MID), Trees(*SIG_DEEP)
     for pal in pals:
-        for n in ((1, 2, 3) if tier == "quick" else (1, 2, 3, 4)):
+        for n in ((1, 2, 3) if tier == "quick" or pal != sd % 3 else (1, 2, 3, 4)):
             for f in mid.iter_forests(n):
                 yield dict(fam="zero", f=f, pal=pal, pol=1 if n % 2 else -1)
                 spec = spec_from_forest(f, pal, 1, 0.37)
